@@ -320,7 +320,8 @@ def cost_block(rng, enduse=1, ptype=1):
     for fixed, adj, (lo, hi) in COST_COMPONENTS:
         r = rng.random()
         if r < 0.3:
-            c.append([fixed, _round(rng.uniform(lo, hi), 4)])
+            # (one in eight of the supplied figures whose range starts at 0 is exactly 0: a supplied figure like any other)
+            c.append([fixed, 0 if lo == 0 and rng.random() < 0.125 else _round(rng.uniform(lo, hi), 4)])
         elif r < 0.7:
             f = rng.choice([1, 1, 0, 10, _round(rng.uniform(0.2, 3), 3)])
             c.append([adj, f])
